@@ -195,12 +195,37 @@ def body_E2(ctx):
 
     err = FErr("from f")
 
-    def f(x, y=0, **kw):
+    def f0(x, y=0, **kw):
         ctx.check(kw == {"f": "kw-f", "self": "kw-self", "action": 1}, "keyword arguments arrived as %r", kw)
         ran.append((x, y))
         if raises:
             raise err
         return ("result", x, y)
+
+    # the kind of callable handed over: any callable qualifies, not only plain functions
+    kind = ctx.choose(4, "kind of callable") if sh.get("callables") else 0
+    if kind == 0:
+        f = f0
+    elif kind == 1:
+        import functools
+
+        f = functools.partial(f0)
+    elif kind == 2:
+
+        class Job(object):
+            __slots__ = ()
+
+            def __call__(me, x, y=0, **kw):  # noqa: the caller passes a keyword named self
+                return f0(x, y, **kw)
+
+        f = Job()
+    else:
+
+        class Holder(object):
+            def method(me, x, y=0, **kw):  # noqa
+                return f0(x, y, **kw)
+
+        f = Holder().method
 
     ctx.check(preserve_context(f) is f, "without a current action preserve_context(f) is not f")
     with start_action(action_type="t:origin") as origin:
@@ -243,7 +268,7 @@ def body_E2(ctx):
     if sched.switches >= n:
         ctx.nontrivial(tuple(ctx.trace))
         ctx.reached("raced")
-    ctx.sample({"threads": n, "f_raises": raises, "winner": w, "schedule": sched.render(10)})
+    ctx.sample({"threads": n, "f_raises": raises, "callable": ["function", "functools.partial", "object with __call__", "bound method"][kind], "winner": w, "schedule": sched.render(10)})
 
 
 def E2() -> bool:
@@ -282,6 +307,6 @@ OBLIGATIONS = [
        shards=_e1_shards, twin=[{"N": 4, "D": 3, "max_lines": 8, "twin_label": "interleaved-merge"}], timeout={"quick": 100, "thorough": 1500},
        bounds={"quick": "programs <= 4 ops with >= 1 hand-off, depth <= 3, <= 8 lines in total, all merges of the sides' files with <= 3 voluntary side switches (per-file order kept); <= 3 ops where the continuation runs in a context that already has a current action", "thorough": "<= 5 ops / 9 lines; text ids; failing remote side; inline continuations with <= 4 ops"}),
     Ob("E2", E2, body_E2, "X", desc="one preserve_context callable raced by 2-3 threads at line granularity: f runs exactly once, the others get TooManyCalls, result/exception passes through", functions=["preserve_context", "restore_eliot_context", "Action.continue_task"],
-       shards={"quick": [{"threads": 2, "P": 3}], "thorough": [{"threads": 2, "P": 1000}, {"threads": 3, "P": 3}]}, twin=[{"threads": 2, "P": 3, "twin_label": "raced"}], timeout={"quick": 100, "thorough": 900},
-       bounds={"quick": "2 threads, <= 3 preemptions, yield at every line of restore_eliot_context", "thorough": "2 threads all schedules; 3 threads <= 3 preemptions"}),
+       shards={"quick": [{"threads": 2, "P": 3}, {"threads": 1, "P": 0, "callables": 1}], "thorough": [{"threads": 2, "P": 1000}, {"threads": 3, "P": 3}, {"threads": 2, "P": 2, "callables": 1}]}, twin=[{"threads": 2, "P": 3, "twin_label": "raced"}], timeout={"quick": 100, "thorough": 900},
+       bounds={"quick": "2 threads, <= 3 preemptions, yield at every line of restore_eliot_context; one thread with 4 kinds of callable (function, functools.partial, object with __call__, bound method)", "thorough": "2 threads all schedules; 3 threads <= 3 preemptions; the 4 kinds of callable with 2 threads <= 2 preemptions"}),
 ]
